@@ -59,6 +59,14 @@ type appHist struct {
 	log       []any
 	feats     map[string]bool
 	initSeqs  []string
+	dead      bool // an ABCI call failed in a way a well-formed history cannot explain: reported, the history stops
+}
+
+// an ABCI call of the real application failed for a reason the history does not explain (e.g. the pool panicked
+// inside baseapp, which recovers it into an error)
+func (h *appHist) fail(e *env, what string) {
+	e.run.Violate("C19:app-abci-failure", what, map[string]any{"app_history": h.log})
+	h.dead = true
 }
 
 func (e *env) addr(i int) sdk.AccAddress { return sdk.AccAddress(e.pubs[i].Address()) }
@@ -224,14 +232,19 @@ func seqMismatch(code uint32, codespace, log string) bool {
 }
 
 func (h *appHist) check(e *env, kind int, signers []sn) *appTx {
+	if h.dead {
+		return nil
+	}
 	at := h.build(e, kind, signers)
 	res, err := h.app.CheckTx(&abci.RequestCheckTx{Tx: at.bz, Type: abci.CheckTxType_New})
 	if err != nil {
-		panic(err)
+		h.fail(e, "CheckTx: "+err.Error())
+		return nil
 	}
 	ok := res.Code == 0
 	if !ok && !seqMismatch(res.Code, res.Codespace, res.Log) {
-		panic(fmt.Sprintf("CheckTx of a well-formed transaction failed for another reason than its sequence: %d %s %s", res.Code, res.Codespace, res.Log))
+		h.fail(e, fmt.Sprintf("CheckTx of a well-formed transaction (signers %v) failed for another reason than its sequence: code %d %s: %.300s", at.signers, res.Code, res.Codespace, res.Log))
+		return nil
 	}
 	key := at.signers[0]
 	if ok {
@@ -263,13 +276,18 @@ func (h *appHist) check(e *env, kind int, signers []sn) *appTx {
 }
 
 func (h *appHist) recheck(e *env, at *appTx) {
+	if h.dead {
+		return
+	}
 	res, err := h.app.CheckTx(&abci.RequestCheckTx{Tx: at.bz, Type: abci.CheckTxType_Recheck})
 	if err != nil {
-		panic(err)
+		h.fail(e, "CheckTx (re-check): "+err.Error())
+		return
 	}
 	ok := res.Code == 0
 	if !ok && !seqMismatch(res.Code, res.Codespace, res.Log) {
-		panic(fmt.Sprintf("re-check failed for another reason than the sequence: %d %s %s", res.Code, res.Codespace, res.Log))
+		h.fail(e, fmt.Sprintf("re-check of %v failed for another reason than the sequence: code %d %s: %.300s", at.signers, res.Code, res.Codespace, res.Log))
+		return
 	}
 	key := at.signers[0]
 	if ok {
@@ -312,9 +330,13 @@ func (h *appHist) pendPrio() map[sn]int64 {
 }
 
 func (h *appHist) prepare(e *env) [][]byte {
+	if h.dead {
+		return nil
+	}
 	res, err := h.app.PrepareProposal(&abci.RequestPrepareProposal{MaxTxBytes: 10_000_000, Height: h.height + 1})
 	if err != nil {
-		panic(err)
+		h.fail(e, "PrepareProposal: "+err.Error())
+		return nil
 	}
 	out := h.decodeKeys(e, res.Txs)
 	entry := map[string]any{"op": "prepare", "proposal": fmt.Sprint(out)}
@@ -380,12 +402,17 @@ func (h *appHist) allConsecutive(e *env) bool {
 }
 
 func (h *appHist) selectObs(e *env, resync bool) []sn {
+	if h.dead {
+		return nil
+	}
 	var out []sn
 	it, panicked := guarded(func() sdkIterator { return h.mp.Select(ctxWith(0), nil) })
 	for it != nil && !panicked {
-		out = append(out, h.decodeOne(e, it.Tx()))
 		cur := it
-		it, panicked = guarded(func() sdkIterator { return cur.Next() })
+		it, panicked = guarded(func() sdkIterator {
+			out = append(out, h.decodeOne(e, cur.Tx()))
+			return cur.Next()
+		})
 	}
 	entry := map[string]any{"op": "select", "out": fmt.Sprint(out), "panicked": panicked}
 	if h.premise && !resync {
@@ -407,10 +434,14 @@ func (h *appHist) block(e *env, txs []*appTx) {
 	for _, t := range txs {
 		bzs = append(bzs, t.bz)
 	}
+	if h.dead {
+		return
+	}
 	h.height++
 	res, err := h.app.FinalizeBlock(&abci.RequestFinalizeBlock{Height: h.height, Txs: bzs, NextValidatorsHash: h.valHash})
 	if err != nil {
-		panic(err)
+		h.fail(e, "FinalizeBlock: "+err.Error())
+		return
 	}
 	var oks, sigTerms []string
 	for i, t := range txs {
@@ -471,7 +502,7 @@ func (e *env) genAppHistory() {
 	h.disciplin = r.Intn(3) != 0
 	var all []*appTx // every transaction ever admitted (CometBFT's view, for re-checks of removed ones too)
 	nops := 6 + r.Intn(14)
-	for i := 0; i < nops; i++ {
+	for i := 0; i < nops && !h.dead; i++ {
 		switch x := r.Intn(100); {
 		case x < 60:
 			s := r.Intn(nAppAcc)
@@ -557,7 +588,11 @@ func (e *env) appWitnesses() {
 			t0 := h.check(e, 0, []sn{{0, n0}})
 			t1 := h.check(e, 0, []sn{{0, n0 + 1}})
 			if t0 == nil || t1 == nil {
-				panic("witness: well-sequenced transactions were not admitted")
+				if !h.dead {
+					h.fail(e, "witness "+script+": well-sequenced transactions were not admitted")
+				}
+				h.finish(e)
+				continue
 			}
 			h.block(e, []*appTx{t0})
 			if script == "B" {
@@ -578,7 +613,11 @@ func (e *env) appWitnesses() {
 			u := h.check(e, 0, []sn{{1, n1}})
 			a := h.check(e, 3, []sn{{0, n0}, {1, n1 + 1}})
 			if u == nil || a == nil {
-				panic("witness: well-sequenced transactions were not admitted")
+				if !h.dead {
+					h.fail(e, "witness C: well-sequenced transactions were not admitted")
+				}
+				h.finish(e)
+				continue
 			}
 			h.selectObs(e, false)
 			prop := h.decodeKeys(e, h.prepare(e))
